@@ -178,7 +178,12 @@ def render(nodes, surface=CANONICAL, r=None):
         out.write(text)
         if surface.placed_comments and role == "val" and ref.comment and extra == len(ref.toks) - 1:
             out.comments.append((ref.comment, out.line, "trailing"))
-            out.write(" " + ref.comment)
+            # usually a blank before the comment; now and then a tab, several blanks, or nothing at all (FONTSET fonts.txt#fonts)
+            # (only a # comment is glued: "word/* ... */" is not one word and one comment for every reader)
+            gaps = [" ", " ", " ", "\t", "   "] + ([""] if ref.comment.startswith("#") else [])
+            if ref.comment.startswith("#") and text and text[0] not in "\"'" and ("." in text or "/" in text):
+                gaps = ["", "", " "]  # an unquoted file name or number with a comment stuck to it
+            out.write((r.choice(gaps) if r is not None else " ") + ref.comment)
         if role == "open" or (role == "key" and ref.kind in ("kv", "projection", "pairs")):
             depth += 1
         prev_role = role
